@@ -47,6 +47,7 @@
 (*   Discipline = "prefix"  -> MatchesIffGlob violated (<<a>>,<<b>> / ab)  *)
 (*   DotAll = FALSE         -> MatchesIffGlob violated ('?' vs LF)         *)
 (*   FindFirst = TRUE       -> LastWins violated                           *)
+(*   AffixFrom = 1          -> MatchesIffGlob violated (<<a,*,a>> / a)     *)
 (* Emission (ESpec + EmitCase): one CASE line per pattern list / document  *)
 (* carrying the expected results for ALL names up to MaxNameLen.           *)
 (***************************************************************************)
@@ -58,6 +59,7 @@ CONSTANTS Sigma,        \* code points offered for patterns
           Discipline,   \* "full" | "prefix"
           DotAll,       \* TRUE: '.' and '.*' match LF (re.DOTALL)
           FindFirst,    \* FALSE; TRUE = buggy "first match wins"
+          AffixFrom,    \* 0; k > 0 = lists of >= k patterns answered from lookup tables (negative control, below)
           Emit,         \* "none" | "match" | "find"
           BlockLen      \* 0, or the block length L checked by BlockInvariance
 
@@ -148,8 +150,32 @@ RegexMatch(re, nm, disc) ==
    \E i \in 1..Len(re) : IF disc = "full" THEN Len(nm) \in AltEnds(re[i], nm)
                                           ELSE AltEnds(re[i], nm) # {}
 
+\* Negative control AffixFrom = k > 0 (seeded change C16-seedN): a paragraph that lists >= k patterns answers from
+\* lookup tables instead of the one regex -- patterns without special symbols by equality, patterns PREFIX*SUFFIX
+\* (exactly one '*', no '?', no backslash) by startswith(PREFIX) and endswith(SUFFIX) WITHOUT asking that the name
+\* is long enough for both (prefix and suffix may overlap in the name: 'a*a' answers 'a'), all other patterns by the
+\* regex of those alone.  The NUMBER of patterns of a list is a dimension of the property ("lists of 1..n patterns"):
+\* TLC enumerates lists of <= MaxPats patterns, longer lists reach the code by the filler argument of the binding
+\* (every enumerated case also as part of a list of 2..15 and of 16..65 patterns).
+Plain(g)   == \A j \in 1..Len(g) : g[j] \notin Special
+OneStar(g) == /\ \A j \in 1..Len(g) : g[j] \notin {QM, BS}
+              /\ Cardinality({j \in 1..Len(g) : g[j] = STAR}) = 1
+ByRegex(g) == ~Plain(g) /\ ~OneStar(g)
+StartsWith(nm, x) == Len(x) <= Len(nm) /\ SubSeq(nm, 1, Len(x)) = x
+EndsWith(nm, x)   == Len(x) <= Len(nm) /\ SubSeq(nm, Len(nm) - Len(x) + 1, Len(nm)) = x
+AffixHit(g, nm) == LET s == CHOOSE j \in 1..Len(g) : g[j] = STAR IN
+                   StartsWith(nm, SubSeq(g, 1, s - 1)) /\ EndsWith(nm, SubSeq(g, s + 1, Len(g)))
+TableMatches(ps, nm) ==
+   LET others == SelectSeq(ps, ByRegex) IN
+   IF RegexErr(others) THEN "FormatError"
+   ELSE IF \/ \E i \in 1..Len(ps) : Plain(ps[i]) /\ ps[i] = nm
+           \/ \E i \in 1..Len(ps) : OneStar(ps[i]) /\ AffixHit(ps[i], nm)
+           \/ (others # <<>> /\ RegexMatch(Regex(others), nm, Discipline))
+        THEN "match" ELSE "nomatch"
+
 \* files_pattern() raises while translating, otherwise matches() applies the discipline
-ImplMatches(ps, nm) == LET re == Regex(ps) IN
+ImplMatches(ps, nm) == IF AffixFrom > 0 /\ Len(ps) >= AffixFrom THEN TableMatches(ps, nm)
+                       ELSE LET re == Regex(ps) IN
                        IF \E i \in 1..Len(re) : HasErr(re[i]) THEN "FormatError"
                        ELSE IF RegexMatch(re, nm, Discipline) THEN "match" ELSE "nomatch"
 
